@@ -180,14 +180,26 @@ def isStopPoll : Ev → Bool
   | _ => false
 
 /-- "On shutdown every poll thread is stopped first and every module is shut down exactly once, users before the
-modules they are attached to." -/
+modules they are attached to."  `stopPollThread` is demanded for the modules that own a poll thread (a `thread` event in
+the log), not by flag; that the threads really end is `PollThreadsStopped`. -/
 def ShutdownOrder (modules : List Name) (edges : List (Name × Name)) (log : List Ev) : Prop :=
   NeverAfter isShutdown isStopPoll log ∧
-  (∀ m ∈ modules, 1 ≤ log.count (.stopPoll m) ∧ log.count (.shutdown m) = 1) ∧
+  (∀ m ∈ modules, (Ev.thread m ∈ log → 1 ≤ log.count (.stopPoll m)) ∧ log.count (.shutdown m) = 1) ∧
   (∀ e ∈ edges, e.1 ≠ e.2 → NeverAfter (· == .shutdown e.2) (· == .shutdown e.1) log)
 
 instance (ms : List Name) (es : List (Name × Name)) (log : List Ev) : Decidable (ShutdownOrder ms es log) := by
   unfold ShutdownOrder; infer_instance
+
+def isStray : Ev → Bool
+  | .latepoll _ => true
+  | .alive _ => true
+  | _ => false
+
+/-- "every poll thread is stopped first", about the threads that exist: no poll happens after a module was shut
+down, and no poll thread is left when `shutdown_modules` has returned -/
+def PollThreadsStopped (log : List Ev) : Prop := ∀ e ∈ log, isStray e = false
+
+instance (log : List Ev) : Decidable (PollThreadsStopped log) := by unfold PollThreadsStopped; infer_instance
 
 /-! ## the judge: which clauses of the statement does an observed life of a node break? -/
 
@@ -204,6 +216,7 @@ def judge (cfg : Cfg) (o : Obs) : List String :=
      then ["writes_before_first_poll"] else []) ++
   (if decide (ReadyAfterFirstRound o.log) && decide (RoundComplete u o.ioDict o.log) then []
      else ["ready_after_first_round"]) ++
-  (if up && !decide (ShutdownOrder o.modules edges o.log) then ["shutdown_order"] else [])
+  (if up && !decide (ShutdownOrder o.modules edges o.log) then ["shutdown_order"] else []) ++
+  (if decide (PollThreadsStopped o.log) then [] else ["poll_threads_stopped"])
 
 end Frappy.Spec.C15
